@@ -747,6 +747,115 @@ func c06RunServiceCase(r *verifkit.Run, idx int, rng *rand.Rand) {
 	if !checkOutcomes(final) {
 		return
 	}
+	// Phase D: tombstone. A StatusDeleted meta (mostly with a higher fence) is applied to every node,
+	// then delayed metas arrive: the metadata of the start of the case, the pre-tombstone metadata and
+	// a same-fence leader switch. Judged against the monitor's fence = the tombstone's fence wherever the
+	// node accepted the tombstone.
+	meta0 := meta
+	pre := c.meta
+	tomb := c.meta
+	tomb.Status = ch.StatusDeleted
+	tombKind := "higher-leader-epoch"
+	switch x := rng.IntN(10); {
+	case x < 5:
+		tomb.LeaderEpoch++
+	case x < 8:
+		tomb.Epoch++
+		tombKind = "higher-epoch"
+	default:
+		tombKind = "equal-fence"
+	}
+	r.Count("tombstone.offered."+tombKind, 1)
+	accepted := map[ch.NodeID]bool{}
+	for _, id := range c.ids {
+		if err := c.nodes[id].ApplyMeta(tomb); err != nil {
+			r.Count("tombstone.rejected", 1)
+			c.note("tombstone on n%d rejected: %v", id, err)
+			continue
+		}
+		accepted[id] = true
+		r.Count("tombstone.accepted", 1)
+	}
+	c.meta = tomb
+	c.note("tombstone %s E%d/LE%d applied, accepted by %v", tombKind, tomb.Epoch, tomb.LeaderEpoch, accepted)
+	if !c.observeAll("tombstoned") {
+		return
+	}
+	other := ch.NodeID(1 + (int(tomb.Leader) % 3))
+	switchMeta := tomb
+	switchMeta.Leader = other
+	switchMeta.Status = ch.StatusActive
+	olderLE := tomb
+	olderLE.Status = ch.StatusActive
+	olderLE.LeaderEpoch--
+	delayed := []struct {
+		name string
+		m    ch.Meta
+	}{{"start-of-case-meta", meta0}, {"pre-tombstone-meta", pre}, {"same-fence-leader-switch", switchMeta}, {"older-leader-epoch", olderLE}}
+	rng.Shuffle(len(delayed), func(i, j int) { delayed[i], delayed[j] = delayed[j], delayed[i] })
+	for _, dm := range delayed {
+		class := "newer-fence"
+		switch {
+		case dm.m.Epoch < tomb.Epoch:
+			class = "older-epoch"
+		case dm.m.Epoch == tomb.Epoch && dm.m.LeaderEpoch < tomb.LeaderEpoch:
+			class = "older-leader-epoch"
+		case dm.m.Epoch == tomb.Epoch && dm.m.LeaderEpoch == tomb.LeaderEpoch && dm.m.Leader != tomb.Leader:
+			class = "same-fence-other-leader"
+		case dm.m.Epoch == tomb.Epoch && dm.m.LeaderEpoch == tomb.LeaderEpoch:
+			class = "same-fence-same-leader"
+		}
+		stale := class == "older-epoch" || class == "older-leader-epoch" || class == "same-fence-other-leader"
+		if !stale {
+			r.Count("meta_after_tombstone.not_stale_skipped."+class, 1)
+			continue // a legitimate refresh would change what later metas are compared with
+		}
+		for _, id := range c.ids {
+			if !accepted[id] {
+				continue
+			}
+			before, ok := c.observe(id, "tombstoned:pre-"+dm.name)
+			if !ok {
+				return
+			}
+			err := c.nodes[id].ApplyMeta(dm.m)
+			r.Eval(1)
+			c.note("delayed meta %s (%s) E%d/LE%d leader=%d status=%d on n%d -> err=%v", dm.name, class, dm.m.Epoch, dm.m.LeaderEpoch, dm.m.Leader, dm.m.Status, id, err)
+			after, ok := c.observe(id, "tombstoned:post-"+dm.name)
+			if !ok {
+				return
+			}
+			if err == nil {
+				r.Count("meta_after_tombstone."+class+".accepted", 1)
+				c.violate("service:stale-meta-accepted:after-deleted-meta", fmt.Sprintf("node %d accepted tombstone E%d/LE%d leader=%d, then accepted %s meta %s E%d/LE%d leader=%d status=%d; runtime now E%d/LE%d role=%d status=%d", id, tomb.Epoch, tomb.LeaderEpoch, tomb.Leader, class, dm.name, dm.m.Epoch, dm.m.LeaderEpoch, dm.m.Leader, dm.m.Status, after.epoch, after.leaderEpoch, after.role, after.status))
+				return
+			}
+			r.Count("meta_after_tombstone."+class+".rejected", 1)
+			if !errors.Is(err, ch.ErrStaleMeta) {
+				c.violate("service:stale-meta-wrong-error:after-deleted-meta", fmt.Sprintf("node %d: %s meta %s -> %v", id, class, dm.name, err))
+				return
+			}
+			if after.epoch != before.epoch || after.leaderEpoch != before.leaderEpoch || after.role != before.role || after.status != before.status {
+				c.violate("service:stale-meta-changed-runtime:after-deleted-meta", fmt.Sprintf("node %d: rejected %s meta %s changed the runtime E%d/LE%d role=%d status=%d -> E%d/LE%d role=%d status=%d", id, class, dm.name, before.epoch, before.leaderEpoch, before.role, before.status, after.epoch, after.leaderEpoch, after.role, after.status))
+				return
+			}
+		}
+	}
+	// appends and hostile acks at the deleted channel: outcomes are counted, the watermark monitor keeps running
+	if o := c.appendOne(nextID(), ch.CommitModeLocal); o.err != nil {
+		r.Count("tombstone.append_rejected", 1)
+	} else {
+		r.Count("tombstone.append_accepted", 1)
+	}
+	c.hostileRound(r.Rand(66, uint64(idx), 5), 2+rng.IntN(3), false, false, "tombstoned")
+	if c.bad || c.incon {
+		return
+	}
+	c.observeAll("tombstoned:end")
+	if c.bad || c.incon {
+		return
+	}
+	features["tombstone-"+tombKind] = true
 	if okQuorum > 0 {
 		features["quorum-append-ok"] = true
 	}
@@ -775,7 +884,7 @@ func c06RunServiceCase(r *verifkit.Run, idx int, rng *rand.Rand) {
 func TestVerifC06Service(t *testing.T) {
 	r := verifkit.Start(t, "C06", "service")
 	defer r.Finish()
-	r.SetRule("Each case builds a fresh 3-node service cluster over memory stores (random leader, ISR of 2 or 3, MinISR 1..|ISR|, epochs >= 2), runs quorum/local appends from concurrent clients, pauses honest replication (sometimes mid-flight), lets the leader's log run ahead with local-mode appends, starts quorum appends that cannot complete, and meanwhile fires hostile HandlePull/HandleAck calls at the leader: ack offsets above LEO (LEO+1 when the log end is quiescent, huge, MaxUint64), stale and future fences, non-replica followers, stopped acks, and truthful acks on behalf of real replicas (never above what that replica's store holds). Every hostile event is bracketed by runtime probes; all nodes are probed after each phase. A case is non-trivial iff a quorum append succeeded and the hostile peer attacked while the leader's LEO was ahead of its HW; distinct = (leader, |ISR|, MinISR, feature set).")
+	r.SetRule("Each case builds a fresh 3-node service cluster over memory stores (random leader, ISR of 2 or 3, MinISR 1..|ISR|, epochs >= 2), runs quorum/local appends from concurrent clients, pauses honest replication (sometimes mid-flight), lets the leader's log run ahead with local-mode appends, starts quorum appends that cannot complete, and meanwhile fires hostile HandlePull/HandleAck calls at the leader: ack offsets above LEO (LEO+1 when the log end is quiescent, huge, MaxUint64), stale and future fences, non-replica followers, stopped acks, and truthful acks on behalf of real replicas (never above what that replica's store holds). Finally a StatusDeleted tombstone (higher leader epoch / higher epoch / equal fence) is applied to all nodes and delayed older metas and a same-fence leader switch are replayed on every node: they must be rejected with ErrStaleMeta and leave the probed (epoch, leader epoch, role, status) unchanged; an append and more hostile calls then hit the deleted channel. Every hostile event is bracketed by runtime probes; all nodes are probed after each phase. A case is non-trivial iff a quorum append succeeded and the hostile peer attacked while the leader's LEO was ahead of its HW; distinct = (leader, |ISR|, MinISR, feature set).")
 	r.Assume("a real ISR member that over-claims an offset <= LEO is outside the threat model (undetectable by any leader); accepted hostile acks are truthful w.r.t. the replica's memory store")
 	r.Assume("memory-store log ends only grow in this configuration (no retention, no quorum-log suffix replacement), so reading them after the probe gives a sound upper bound")
 	n := r.N(36, 900)
